@@ -351,6 +351,7 @@ func (s *Service) initialize() error {
 
 func (s *Service) Drain(timeout time.Duration) {
 	active, rollout, _ := s.slots()
+	verifEvent("svc-drain", s, active, rollout)
 
 	PerformConcurrently(
 		func() {
@@ -362,6 +363,7 @@ func (s *Service) Drain(timeout time.Duration) {
 			}
 		},
 	)
+	verifEvent("svc-drain-done", s)
 }
 
 func (s *Service) loadBalancerForRequest(req *http.Request) *LoadBalancer {
